@@ -98,7 +98,7 @@ def Trie.remove (t : Trie) (key : Key) : Trie := t.filter (fun p => p.1 ≠ key)
 inductive Out (α : Type) where
   | ok : α → Out α
   | panic : Out α
-  deriving Repr
+  deriving DecidableEq, Repr
 
 def keyToNet (key : Key) : Out Net :=
   match key.reverse with
